@@ -75,6 +75,7 @@ pub fn replay(property: &str, part: &str, case: &serde_json::Value) -> Option<Re
         ("C11", "calls") => replay_part(&c11::Calls, case, 1),
         ("C15", "codec") => replay_part(&c15::Codec, case, 1),
         ("C15", "network") => replay_part(&c15::Net, case, 1),
+        ("C15", "huge-limits") => replay_part(&c15::HugeLimits, case, 1),
         ("C15", "tiny-limits") => replay_part(&c15::TinyLimits, case, 1),
         ("C15", "no-limit") => replay_part(&c15::NoLimit, case, 1),
         ("C12", "abandon-sweep") => replay_part(&c12::Sweeps, case, 1),
